@@ -5,6 +5,7 @@ import HapVerif.Props.C15
 import HapVerif.Gen.Protocol
 import HapVerif.Gen.Install
 import HapVerif.Proofs.ReconnectSecure
+import HapVerif.Model.BleSession
 
 /-! # C01 - pair-verify yields session keys only for the authentic paired accessory
 
@@ -335,5 +336,92 @@ example :
     let s2 := run s1 [.pushVer .hang, .pushTcp (.ok 0), .drop 0]
     s1.isConnected = true ∧ s2.conn = .verifyWait 245760 1 ∧ s2.current = some 1 ∧ s2.isConnected = false := by
   decide +kernel
+
+/-! ## BLE: session keys never outlive the link they were negotiated on -/
+
+open HapVerif.BleSession in
+/-- the invariant: keys exist only for the link that is currently connected, and all traffic so far went out on the
+    link its keys were negotiated on -/
+def BleInv (s : BleSession.St) : Prop :=
+  (∀ k, s.keys = some k → s.link = some k) ∧ (∀ l, s.link = some l → l < s.nextLink) ∧
+  ∀ p ∈ s.traffic, p.1 = p.2
+
+open HapVerif.BleSession in
+theorem ble_step_inv (s : BleSession.St) (e : BleSession.Ev) (h : BleInv s) : BleInv (BleSession.step s e) := by
+  obtain ⟨h1, h2, h3⟩ := h
+  cases hl : s.link with
+  | none =>
+    have hk : s.keys = none := by
+      cases hk : s.keys with
+      | none => rfl
+      | some k => have := h1 k hk; rw [hl] at this; cases this
+    cases e <;> simp only [BleSession.step, hl, hk]
+    case connect =>
+      refine ⟨by simp [hk], ?_, h3⟩
+      intro l hl'
+      simp only [Option.some.injEq] at hl'
+      dsimp only
+      omega
+    all_goals first
+      | exact ⟨h1, h2, h3⟩
+      | exact ⟨by simp, by simp, h3⟩
+  | some l =>
+    have hlt := h2 l hl
+    cases hk : s.keys with
+    | none =>
+      cases e <;> simp only [BleSession.step, hl, hk]
+      case verifyOk =>
+        refine ⟨?_, ?_, h3⟩
+        · intro k hk'
+          simp only [Option.some.injEq] at hk'
+          rw [← hk']
+        · intro l' hl'
+          simp only [Option.some.injEq] at hl'
+          dsimp only
+          omega
+      all_goals first
+        | exact ⟨h1, h2, h3⟩
+        | exact ⟨by simp, by simp, h3⟩
+    | some k =>
+      have hkl : l = k := by
+        have := h1 k hk
+        rw [hl] at this
+        simpa using this
+      cases e <;> simp only [BleSession.step, hl, hk]
+      case request =>
+        refine ⟨?_, ?_, ?_⟩
+        · intro k' hk'; simp only [Option.some.injEq] at hk'; rw [← hk', hkl]
+        · intro l' hl'; simp only [Option.some.injEq] at hl'; dsimp only; omega
+        · intro p hp
+          simp only [List.mem_append, List.mem_singleton] at hp
+          rcases hp with hp | rfl
+          · exact h3 p hp
+          · exact hkl
+      all_goals first
+        | exact ⟨h1, h2, h3⟩
+        | exact ⟨by simp, by simp, h3⟩
+
+open HapVerif.BleSession in
+/-- **On BLE every encrypted request goes out on the link on which its session keys were negotiated**, in every
+    history of connects, pair-verify outcomes, requests, closes (clean or with a raising disconnect) and link
+    losses: a new link never inherits the previous link's keys, so its peer has to prove itself again. -/
+theorem C01_ble_keys_bound_to_link (evs : List BleSession.Ev) :
+    (∀ p ∈ (BleSession.run {} evs).traffic, p.1 = p.2) ∧
+    (∀ k, (BleSession.run {} evs).keys = some k → (BleSession.run {} evs).link = some k) := by
+  have h : ∀ (evs : List BleSession.Ev) (s : BleSession.St), BleInv s → BleInv (BleSession.run s evs) := by
+    intro evs
+    induction evs with
+    | nil => intro s hs; exact hs
+    | cons e es ih => intro s hs; exact ih _ (ble_step_inv s e hs)
+  have := h evs {} ⟨by simp, by simp, by simp⟩
+  exact ⟨this.2.2, this.1⟩
+
+open HapVerif.BleSession in
+/-- non-vacuity: verified on link 0, close with a raising disconnect, reconnect: the new link 1 has no keys until
+    its own pair-verify; a failing one (an impostor) leaves it without keys and no request goes out -/
+example :
+    (BleSession.run {} [.connect, .verifyOk, .request, .closeRaises, .connect, .verifyFail, .request]).traffic = [(0, 0)] ∧
+    (BleSession.run {} [.connect, .verifyOk, .request, .closeRaises, .connect]).keys = none ∧
+    (BleSession.run {} [.connect, .verifyOk, .request, .closeRaises, .connect]).link = some 1 := by decide
 
 end HapVerif.C01
